@@ -937,6 +937,114 @@ def reset(sx):
     envl.WhileWaiting.fn = None
 
 
+# request classes of the batched lookups: what B's table says about the name
+BATCH = ["bound1", "bound2", "unbound", "sdp", "empty"]
+
+
+def batched_resolve(sx, count, direct):
+    """several service name lookups travel in ONE SNL PDU; every request is
+    answered from B's table for that very name (0 when the name is not
+    bound) and the answers come back under the right transaction ids"""
+    n = Net(sx)
+    A, B = n.A, n.mk()
+    names = {"bound1": NAMES["a"][0], "bound2": NAMES["b"][0],
+             "unbound": NAMES["c"][0], "sdp": NAMES["sdp"][0], "empty": b""}
+    B.bind(B.socket(LDL), filler(60))
+    B.bind(B.socket(DLC), names["bound1"])
+    B.bind(B.socket(LDL), names["bound2"])
+    table = {"bound1": 17, "bound2": 18, "unbound": 0, "sdp": 1, "empty": 0}
+    sx.check(B.snl.get(names["bound1"]) == 17 and B.snl.get(names["bound2"]) == 18,
+             "batch:setup")
+    order = []
+    left = list(BATCH)
+    for j in range(count):
+        c = sx.pick("req%d" % j, left)
+        left.remove(c)
+        order.append(c)
+    if direct:
+        # a hand-built SNL PDU with arbitrary transaction ids arrives at B
+        tids = [sx.int("tid%d" % j, 0, 255) for j in range(count)]
+        B.dispatch(pdu.decode(pdu.encode(pdu.ServiceNameLookup(
+            1, 1, sdreq=[(t, names[c]) for t, c in zip(tids, order)]))))
+        ans = B.collect()
+        if ans is None or ans.name != "SNL" or len(ans.sdres) != count:
+            sx.check(False, "batch:answers-missing")
+        for j, c in enumerate(order):
+            sx.check(same(sx, [ans.sdres[j][0], ans.sdres[j][1]],
+                          [tids[j], table[c]]),
+                     "batch:wrong-answer:%s-after-%s" % (
+                         c, order[j - 1] if j else "nothing"))
+        sx.reach("batch:direct")
+        return order
+    for c in order:
+        try:
+            A.resolve(names[c])
+            sx.check(False, "batch:resolve-setup")
+        except envl.WouldBlock:
+            pass
+    req = A.collect()
+    if req is None or req.name != "SNL" or len(req.sdreq) != count:
+        sx.check(False, "batch:requests-not-in-one-snl-pdu")
+    B.dispatch(pdu.decode(pdu.encode(req)))
+    if A.collect() is not None:
+        sx.check(False, "batch:requests-sent-twice")
+    n.transfer(B, A, "batch")
+    for j, c in enumerate(order):
+        try:
+            got = A.resolve(names[c])
+        except envl.WouldBlock:
+            sx.check(False, "batch:no-answer:" + c)
+        sx.check(got == table[c], "batch:wrong-answer:%s-after-%s" % (
+            c, order[j - 1] if j else "nothing"))
+    sx.reach("batch:resolved")
+    return order
+
+
+def churn(sx, keep):
+    """the dynamic range after many anonymous bind/close cycles: an
+    anonymous bind succeeds iff an address in 32..63 is free (all concrete)"""
+    n = Net(sx)
+    k1 = sx.pick("k1", [1, 30, 31, 32, 33])
+    kept = []
+    for j in range(k1):
+        i = n.socket("LDL")
+        n.bind_none(i)
+        if j >= k1 - keep:
+            kept.append(i)
+        else:
+            n.close(i)
+    n.invariants(0)
+    k2 = sx.pick("k2", [0, 1, 29, 30, 31, 32])
+    for j in range(k2):
+        i = n.socket("DLC" if j % 2 else "LDL")
+        n.bind_none(i)
+        n.close(i)
+    n.invariants(1)
+    out = [k1, k2]
+    step = 2
+    for j in range(3):
+        op = sx.pick("op%d" % step, [None, "bind", "bind-raw", "close-kept",
+                                     "listen", "bind-addr"])
+        if op is None:
+            break
+        if op == "bind":
+            out.append(n.bind_none(n.socket("LDL")))
+        elif op == "bind-raw":
+            out.append(n.bind_none(n.socket("RAW")))
+        elif op == "listen":
+            out.append(n.listen(n.socket("DLC")))
+        elif op == "bind-addr":
+            out.append(n.bind_addr(n.socket("LDL"), 32 + (k1 + k2) % 32))
+        else:
+            if not kept:
+                break
+            out.append(n.close(kept.pop(0)))
+        n.invariants(step)
+        step += 1
+    sx.reach("churn-end")
+    return out
+
+
 def cross_connect_after_rebind(sx, pre):
     """A knows (or does not know) the address of a remote service name from
     an earlier resolve(); the peer then closes and re-binds its services so
@@ -1068,6 +1176,14 @@ def partitions(tier):
     for kind in ("sendto", "connect"):
         parts.append(dict(name="cross-resolve:" + kind, fn="cross_resolve",
                           params=dict(kind=kind)))
+    for count in ((2,) if tier == "quick" else (2, 3)):
+        for direct in (0, 1):
+            parts.append(dict(name="batched-resolve:%d:%s" % (
+                count, "direct" if direct else "via-A"), fn="batched_resolve",
+                params=dict(count=count, direct=direct)))
+    for keep in (0, 1, 2):
+        parts.append(dict(name="churn:keep=%d" % keep, fn="churn",
+                          params=dict(keep=keep)))
     for pre in ("resolve", "none"):
         parts.append(dict(name="cross-connect-after-rebind:" + pre,
                           fn="cross_connect_after_rebind", params=dict(pre=pre)))
@@ -1087,9 +1203,10 @@ MUST_REACH = ["history-end", "EAGAIN", "bind-addr-ok", "bind-addr:EFAULT",
               "lifecycle-end", "close:again", "reclose-end",
               "resolve:name-also-local", "cross-resolve:found",
               "cross-resolve:absent", "rebind:resolved-before",
-              "rebind:refused", "rebind:connected"]
+              "rebind:refused", "rebind:connected", "batch:direct",
+              "batch:resolved", "churn-end"]
 BOUNDS = {
-    "quick": "histories of 1 fixed operation (15 kinds) + up to 2 picked from 11 (socket+bind none/address/name for the three socket kinds, second bind of a bound socket, listen, close, datagram from a second controller, resolve and connect-by-name through collect()/dispatch()), addresses symbolic inside windows {-1..1, 3..5, 31..33, 63..64}; bind(address) with the address symbolic over -1..64 after four table prefixes (fresh, populated, after close, all 48 bindable addresses taken) for each socket kind, bound twice and re-bound after close; all 32 dynamic / 16 named addresses taken, one closed, then a suffix of up to 2 operations; datagrams with symbolic DSAP 0..63, SSAP 0..63 and payload octets (lengths 0..3, one or two datagrams) against a populated table; named listener + accepted connection closed in any order (also twice) with up to 3 operations; close() repeated on a socket whose address was re-assigned in between (3 x 2 socket kinds, bind by none/address/name) + up to 2 operations; both devices binding the same service name at different addresses, A resolving it and sending a datagram / connecting to the answer; resolve with the name also bound on the resolving device; connect(name) through the real connect() after the peer closed and re-bound its two named listeners (swap, move, unbind, take-over, nothing), with and without an earlier resolve() of the name; names from a fixed alphabet of 8 (+ 17 filler names), given as bytes or text",
+    "quick": "histories of 1 fixed operation (15 kinds) + up to 2 picked from 11 (socket+bind none/address/name for the three socket kinds, second bind of a bound socket, listen, close, datagram from a second controller, resolve and connect-by-name through collect()/dispatch()), addresses symbolic inside windows {-1..1, 3..5, 31..33, 63..64}; bind(address) with the address symbolic over -1..64 after four table prefixes (fresh, populated, after close, all 48 bindable addresses taken) for each socket kind, bound twice and re-bound after close; all 32 dynamic / 16 named addresses taken, one closed, then a suffix of up to 2 operations; datagrams with symbolic DSAP 0..63, SSAP 0..63 and payload octets (lengths 0..3, one or two datagrams) against a populated table; named listener + accepted connection closed in any order (also twice) with up to 3 operations; close() repeated on a socket whose address was re-assigned in between (3 x 2 socket kinds, bind by none/address/name) + up to 2 operations; both devices binding the same service name at different addresses, A resolving it and sending a datagram / connecting to the answer; resolve with the name also bound on the resolving device; two (thorough: three) lookups in one SNL PDU for names from {bound, bound elsewhere, unbound, sdp, empty} in every order, through resolve() on A and as a hand-built PDU with symbolic transaction ids; 1/30/31/32/33 anonymous bind+close cycles keeping the last 0..2 sockets, 0/1/29..32 further cycles, then up to 3 operations; connect(name) through the real connect() after the peer closed and re-bound its two named listeners (swap, move, unbind, take-over, nothing), with and without an earlier resolve() of the name; names from a fixed alphabet of 8 (+ 17 filler names), given as bytes or text",
     "thorough": "as quick with histories of 2 fixed (26 x 7) + up to 2 picked operations, suffixes of up to 3/4 operations after exhaustion and up to 4 in the listener life cycle",
 }
 OUTSIDE = ["operations on closed sockets", "service names outside the alphabet (the name syntax check is a regular expression on concrete bytes)",
